@@ -196,7 +196,7 @@ Record Inv (s : st) : Prop := {
 }.
 
 Lemma init_inv : Inv init.
-Proof. split; cbn; try easy. intros k. split; auto. Qed.
+Proof. split; cbn; try easy; intros k; split; auto. Qed.
 
 Lemma send_inv ks s : Inv s -> Inv (send P0 ks s).
 Proof.
@@ -231,9 +231,9 @@ Proof.
   assert (Hpn : forall k, 0 <= pz (prox s k)) by (intros k; destruct (prox s k) as [r|] eqn:E; cbn [pz]; [specialize (Hp _ _ E)|]; lia).
   assert (Hdn : forall k, 0 <= dels q k) by (intros; now apply dels_nonneg).
   destruct m as [ks|r| |k n|k|c args ret|]; cbn [serve_owner].
-  - (* stray MCall: ignored *) split; cbn; auto. intros k. rewrite Hc. cbn [dels dels_m]. lia.
-  - split; cbn; auto. intros k. rewrite Hc. cbn [dels dels_m]. lia.
-  - split; cbn; auto. intros k. rewrite Hc. cbn [dels dels_m]. lia.
+  - (* stray MCall: ignored *) split; cbn; auto; try (intros k; rewrite Hc; cbn [dels dels_m]; lia).
+  - split; cbn; auto; try (intros k; rewrite Hc; cbn [dels dels_m]; lia).
+  - split; cbn; auto; try (intros k; rewrite Hc; cbn [dels dels_m]; lia).
   - (* release notice *)
     assert (Hn1 : 1 <= n) by (apply (Hd k n); now left).
     pose proof (Hc k) as Hck. cbn [dels dels_m] in Hck. rewrite Nat.eqb_refl in Hck.
@@ -265,7 +265,7 @@ Proof.
       * intros k. rewrite refs_app, add_Sv, Hc. cbn [refs refs_m dels dels_m]. lia.
       * now apply add_nonneg.
     + split; cbn; auto. intros k. rewrite refs_app, Hc. cbn [refs refs_m dels dels_m]. lia.
-  - split; cbn; auto. intros k. rewrite Hc. cbn [dels dels_m]. lia.
+  - split; cbn; auto; try (intros k; rewrite Hc; cbn [dels dels_m]; lia).
 Qed.
 
 Lemma unbox_all_inv s ks d : closed s = false -> nonneg (slot s) -> ppos (prox s) -> ph_ok (prox s) (holds s) ->
@@ -281,7 +281,7 @@ Proof.
   - intros k. rewrite C, dels_app, Hc. cbn [dels]. destruct d; cbn [dels_m]; try lia.
     + exfalso; eapply Hd1; eauto. + exfalso; eapply Hd2; eauto.
   - apply dels_pos_app; [exact Hd|]. intros k n [->|[]]. exfalso; eapply Hd1; eauto.
-  - intros k Hin. apply in_app_or in Hin. destruct Hin as [Hin|[<-|[]]]; [eapply H0; eauto|eapply Hd2; eauto].
+  - intros k Hin. apply in_app_or in Hin. destruct Hin as [Hin|[Hin|[]]]; [eapply H0; eauto|eapply Hd2; eauto].
   - apply uses_ok_app; [eapply uses_ok_mono; eauto|]. intros k Hk. now apply Hm in Hk.
 Qed.
 
@@ -396,3 +396,164 @@ Proof.
 Qed.
 Lemma run_good ops : Forall valid_op ops -> Good (run P0 ops).
 Proof. intros Hv. apply run_from_good; [exact Hv|]. unfold Good. cbn. apply init_inv. Qed.
+
+(* ---- consequences for all histories ---- *)
+Lemma has_del_cons k x r : has_del k r -> has_del k (x :: r).
+Proof. apply (has_del_app_r k [x] r). Qed.
+Lemma uses_ok_in p q m k : uses_ok p q -> In m q -> mentions m k -> p k <> None \/ has_del k q.
+Proof.
+  induction q as [|x r IH]; intros Hu Hin Hk; [destruct Hin|].
+  cbn [uses_ok] in Hu. destruct Hu as [H1 H2]. destruct Hin as [->|Hin].
+  - destruct (H1 k Hk) as [H|H]; [now left|right]. now apply has_del_cons.
+  - destruct (IH H2 Hin Hk) as [H|H]; [now left|right]. now apply has_del_cons.
+Qed.
+
+Lemma good_open s : Good s -> closed s = false -> Inv s.
+Proof. unfold Good. intros H E. now rewrite E in H. Qed.
+Lemma good_errs s : Good s -> errs s = O.
+Proof. unfold Good. destruct (closed s); [tauto|apply i_errs]. Qed.
+
+(* 1. the counting invariant *)
+Theorem count_invariant ops k : Forall valid_op ops -> closed (run P0 ops) = false ->
+  Sv (slot (run P0 ops)) k = refs (qab (run P0 ops)) k + pz (prox (run P0 ops) k) + dels (qba (run P0 ops)) k.
+Proof. intros Hv Ho. apply i_cnt. apply good_open; [now apply run_good|exact Ho]. Qed.
+
+(* what keeps object k referenced by the owner's connection *)
+Definition held_or_in_flight (s : st) (k : nat) : Prop :=
+  prox s k <> None \/ 1 <= refs (qab s) k \/ has_del k (qba s) \/ exists m, In m (qba s) /\ mentions m k.
+
+Lemma inv_alive s k : Inv s -> held_or_in_flight s k -> slot s k <> None.
+Proof.
+  intros [Ho Hc Hn Hp Hd H0 Hh Hu He] H. apply Sv_pos_present. rewrite Hc.
+  pose proof (refs_nonneg (qab s) k). pose proof (dels_nonneg (qba s) k Hd).
+  assert (0 <= pz (prox s k)) by (destruct (prox s k) as [r|] eqn:E; cbn [pz]; [specialize (Hp _ _ E)|]; lia).
+  assert (Hpp : prox s k <> None -> 1 <= pz (prox s k)).
+  { destruct (prox s k) as [r|] eqn:E; [|congruence]. intros _. cbn [pz]. eapply Hp; eauto. }
+  destruct H as [H|[H|[H|(m & Hin & Hm)]]].
+  - specialize (Hpp H). lia.
+  - lia.
+  - pose proof (dels_has _ _ Hd H). lia.
+  - destruct (uses_ok_in _ _ _ _ Hu Hin Hm) as [H|H]; [specialize (Hpp H); lia|pose proof (dels_has _ _ Hd H); lia].
+Qed.
+
+(* 2. alive while held, and no lookup at the owner ever fails *)
+Theorem alive_while_held ops k : Forall valid_op ops -> closed (run P0 ops) = false ->
+  held_or_in_flight (run P0 ops) k -> slot (run P0 ops) k <> None /\ alive (run P0 ops) k = true.
+Proof.
+  intros Hv Ho H. assert (Hs : slot (run P0 ops) k <> None) by (eapply inv_alive; eauto; apply good_open; [now apply run_good|exact Ho]).
+  split; [exact Hs|]. unfold alive. destruct (slot (run P0 ops) k); [apply orb_true_r|congruence].
+Qed.
+Theorem no_keyerror ops : Forall valid_op ops -> errs (run P0 ops) = O.
+Proof. intros Hv. apply good_errs. now apply run_good. Qed.
+
+(* 3. nothing in flight and no proxy: the owner's connection has let go *)
+Theorem released_at_quiescence ops k : Forall valid_op ops -> closed (run P0 ops) = false ->
+  refs (qab (run P0 ops)) k = 0 -> dels (qba (run P0 ops)) k = 0 -> prox (run P0 ops) k = None ->
+  slot (run P0 ops) k = None /\ alive (run P0 ops) k = appref (run P0 ops) k.
+Proof.
+  intros Hv Ho Hr Hd Hp. pose proof (count_invariant ops k Hv Ho) as H. rewrite Hr, Hd, Hp in H. cbn [pz] in H.
+  assert (E : slot (run P0 ops) k = None).
+  { unfold Sv in H. destruct (slot (run P0 ops) k) as [z|] eqn:E; [|reflexivity].
+    pose proof (i_nonneg _ (good_open _ (run_good ops Hv) Ho) k z E). lia. }
+  split; [exact E|]. unfold alive. rewrite E. apply orb_false_r.
+Qed.
+
+(* 4. closing: for every history whatsoever, also with a misbehaving peer *)
+Definition closed_cleared (s : st) : Prop := closed s = true -> forall k, slot s k = None.
+
+Lemma serve_owner_closed m s : closed (serve_owner P0 m s) = closed s.
+Proof.
+  destruct m as [ks|r| |k n|k|c args ret|]; cbn [serve_owner]; try reflexivity.
+  - destruct (coll_decref P0 (slot s) k n); reflexivity.
+  - destruct (coll_decref P0 (slot s) k (p_dec_default P0)); reflexivity.
+  - destruct (all_present (slot s) (c :: args)); [|reflexivity]. destruct ret; [destruct args|]; reflexivity.
+Qed.
+Lemma deliver_ba_closed s : closed (deliver_ba P0 s) = closed s.
+Proof. unfold deliver_ba. destruct (qba s); [reflexivity|]. now rewrite serve_owner_closed. Qed.
+Lemma unbox_all_closed s ks : closed (unbox_all P0 s ks) = closed s.
+Proof. unfold unbox_all. destruct (fold_left (unbox1 P0) ks (prox s, holds s)). reflexivity. Qed.
+Lemma deliver_ab_closed s : closed (deliver_ab P0 s) = closed s.
+Proof.
+  unfold deliver_ab. destruct (qab s) as [|m q]; [reflexivity|].
+  destruct m as [ks|[r|]| |k n|k|c args ret|]; cbn [serve_peer]; try reflexivity.
+  all: cbn; now rewrite ?unbox_all_closed.
+Qed.
+Lemma iter_closed (f : st -> st) n s : (forall x, closed (f x) = closed x) -> closed (Nat.iter n f s) = closed s.
+Proof. intros Hf. induction n; cbn [Nat.iter nat_rect]; [reflexivity|]. now rewrite Hf. Qed.
+Lemma sync_closed s : closed (sync P0 s) = closed s.
+Proof. unfold sync. rewrite iter_closed by apply deliver_ba_closed. now rewrite iter_closed by apply deliver_ab_closed. Qed.
+
+Lemma step_closed_cleared o s : closed_cleared s -> closed_cleared (step P0 o s).
+Proof.
+  intros H. unfold step. destruct (closed s) eqn:Ec; [exact H|].
+  unfold closed_cleared. destruct o; cbn [step]; intros E;
+    try (match type of E with closed (close _ _ _) = true => intros j; reflexivity end); exfalso; revert E.
+  - cbn. congruence.
+  - rewrite sync_closed. cbn. congruence.
+  - rewrite deliver_ab_closed. congruence.
+  - rewrite deliver_ba_closed. congruence.
+  - unfold drop_one, finalize. destruct (holds s k) as [|[|h]]; [congruence| |cbn; congruence]. destruct (prox s k); cbn; congruence.
+  - unfold drop_all, finalize. destruct (holds s k); [congruence|]. destruct (prox s k); cbn; congruence.
+  - unfold use. destruct (all_held s (c :: args)); cbn; congruence.
+  - cbn. congruence.
+  - rewrite sync_closed. congruence.
+  - cbn. congruence.
+  - cbn. congruence.
+Qed.
+Lemma run_from_closed_cleared ops : forall s, closed_cleared s -> closed_cleared (run_from P0 s ops).
+Proof. induction ops as [|o r IH]; intros s H; cbn [run_from fold_left]; [exact H|]. apply IH. now apply step_closed_cleared. Qed.
+
+Lemma step_after_closed o s : closed s = true -> step P0 o s = s.
+Proof. intros E. unfold step. now rewrite E. Qed.
+Lemma run_from_after_closed ops : forall s, closed s = true -> run_from P0 s ops = s.
+Proof. induction ops as [|o r IH]; intros s E; cbn [run_from fold_left]; [reflexivity|]. rewrite step_after_closed by exact E. now apply IH. Qed.
+
+Lemma close_step_closed b s : closed (step P0 (Close b) s) = true.
+Proof. unfold step. destruct (closed s) eqn:E; [exact E|reflexivity]. Qed.
+
+Theorem close_releases ops b more k :
+  let s := run P0 (ops ++ Close b :: more) in closed s = true /\ slot s k = None.
+Proof.
+  cbn zeta. unfold run, run_from. rewrite fold_left_app. cbn [fold_left].
+  fold (run_from P0 init ops). set (s0 := run_from P0 init ops).
+  fold (run_from P0 (step P0 (Close b) s0) more).
+  rewrite run_from_after_closed by apply close_step_closed.
+  split; [apply close_step_closed|].
+  assert (H : closed_cleared (step P0 (Close b) s0)).
+  { apply step_closed_cleared. apply run_from_closed_cleared. intros E. discriminate. }
+  apply H. apply close_step_closed.
+Qed.
+
+(* every proxy the peer holds can be operated through: the request is sent, and serving it (and everything
+   before it in the stream) raises nothing at the owner *)
+Lemma iter_succ_r {A} n (f : A -> A) x : Nat.iter (S n) f x = Nat.iter n f (f x).
+Proof. induction n as [|n IH]; [reflexivity|]. cbn [Nat.iter nat_rect] in *. now rewrite IH. Qed.
+Lemma run_snoc P ops o : run P (ops ++ [o]) = step P o (run P ops).
+Proof. unfold run, run_from. now rewrite fold_left_app. Qed.
+Theorem reachable_through_proxy ops c args ret : Forall valid_op ops -> closed (run P0 ops) = false ->
+  (forall k, In k (c :: args) -> holds (run P0 ops) k <> O) ->
+  In (MUse c args ret) (qba (run P0 (ops ++ [Use c args ret]))) /\
+  qba (run P0 ((ops ++ [Use c args ret]) ++ [Sync])) = [] /\
+  errs (run P0 ((ops ++ [Use c args ret]) ++ [Sync])) = O.
+Proof.
+  intros Hv Ho Hh. split; [|split].
+  - rewrite run_snoc. unfold step. rewrite Ho. unfold use.
+    assert (E : all_held (run P0 ops) (c :: args) = true).
+    { unfold all_held. apply forallb_forall. intros k Hk. specialize (Hh k Hk). now destruct (Nat.eqb_spec (holds (run P0 ops) k) O). }
+    rewrite E. cbn. apply in_or_app. right. now left.
+  - rewrite run_snoc. set (s := run P0 (ops ++ [Use c args ret])).
+    assert (Hc : closed s = false).
+    { unfold s. rewrite run_snoc. unfold step. rewrite Ho. unfold use. destruct (all_held _ _); cbn; exact Ho. }
+    unfold step. rewrite Hc. unfold sync.
+    set (s1 := Nat.iter (List.length (qab s)) (deliver_ab P0) s).
+    clearbody s1. clear. remember (List.length (qba s1)) as n eqn:En. revert s1 En.
+    induction n as [|n IH]; intros s1 En.
+    + cbn. destruct (qba s1); [reflexivity|discriminate].
+    + rewrite iter_succ_r. apply IH. unfold deliver_ba. destruct (qba s1) as [|m q] eqn:Eq; [discriminate|].
+      cbn [List.length] in En. injection En as En.
+      destruct m as [ks|r| |k n0|k|c args ret|]; cbn [serve_owner]; try (cbn; exact En).
+      * destruct (coll_decref P0 (slot (set_qba s1 q)) k n0); cbn; exact En.
+      * destruct (coll_decref P0 (slot (set_qba s1 q)) k (p_dec_default P0)); cbn; exact En.
+      * destruct (all_present (slot (set_qba s1 q)) (c :: args)); [|cbn; exact En]. destruct ret; [destruct args|]; cbn; exact En.
+  - apply no_keyerror. apply Forall_app. split; [apply Forall_app; split; [exact Hv|]|]; repeat constructor.
+Qed.
